@@ -131,6 +131,60 @@ theorem inWindow_plain (s : Sig) (hi : ((s.inception : Int) - now).natAbs < 2147
   unfold inWindow year68
   simp [small _ hi, small _ he]
 
+/-! ## synthesised CNAMEs (RFC 6672 §3.3 / §5.3.1) -/
+
+/-- **The CNAMEs exempt from carrying a signature are exactly the ones a DNAME of the list
+implies**: some DNAME owner (not the root) is a PROPER label-wise ancestor of the CNAME owner and
+the CNAME target is the DNAME target followed by exactly the owner's labels above the DNAME owner —
+nothing inserted, nothing glued on, no other tail. -/
+theorem synthesized_cname_exact (c : RR) (dnames : List RR) :
+    isSynthesizedCNAME c dnames = true ↔
+      ∃ d ∈ dnames, ∃ rel dt, rel ≠ [] ∧ d.owner ≠ [] ∧ c.owner = d.owner ++ rel ∧
+        d.target = some dt ∧ c.target = some (dt ++ rel) := by
+  unfold isSynthesizedCNAME
+  rw [List.any_eq_true]
+  constructor
+  · rintro ⟨d, hd, h⟩
+    simp only [Bool.and_eq_true, bne_iff_ne, ne_eq, decide_eq_true_eq, and_assoc] at h
+    obtain ⟨h0, hlt, hpre, hm⟩ := h
+    obtain ⟨rel, hrel⟩ := List.isPrefixOf_iff_prefix.mp hpre
+    refine ⟨d, hd, rel, ?_⟩
+    have hne : rel ≠ [] := by
+      intro he; subst he; rw [← hrel] at hlt; simp at hlt
+    have h0' : d.owner ≠ [] := by
+      intro he; apply h0; simp [he]
+    cases hct : c.target with
+    | none => rw [hct] at hm; simp at hm
+    | some ct =>
+      cases hdt : d.target with
+      | none => rw [hct, hdt] at hm; simp at hm
+      | some dt =>
+        rw [hct, hdt] at hm
+        simp only [beq_iff_eq] at hm
+        refine ⟨dt, hne, h0', hrel.symm, rfl, ?_⟩
+        rw [hm, ← hrel]; simp
+  · rintro ⟨d, hd, rel, dt, hne, h0, how, hdt, hct⟩
+    refine ⟨d, hd, ?_⟩
+    have hrl : 0 < rel.length := by
+      cases rel with
+      | nil => exact absurd rfl hne
+      | cons _ _ => simp
+    have hpre : d.owner.isPrefixOf (d.owner ++ rel) = true :=
+      List.isPrefixOf_iff_prefix.mpr ⟨rel, rfl⟩
+    have h0' : (d.owner.length != 0) = true := by
+      simp only [bne_iff_ne, ne_eq]
+      intro hz; exact h0 (List.eq_nil_of_length_eq_zero hz)
+    rw [hct, hdt, how]
+    simp [h0', hpre, hrl]
+
+-- the shapes of the seeded breakage: text between the relative labels and the target, or a longer tail
+example : isSynthesizedCNAME { owner := ["test", "secure", "d", "a"], rtype := 5, target := some ["test", "eviltarget", "a"] }
+    [{ owner := ["test", "secure", "d"], rtype := 39, target := some ["test", "target"] }] = false := by decide
+example : isSynthesizedCNAME { owner := ["test", "secure", "d", "a"], rtype := 5, target := some ["test", "target", "c", "b", "a"] }
+    [{ owner := ["test", "secure", "d"], rtype := 39, target := some ["test", "target"] }] = false := by decide
+example : isSynthesizedCNAME { owner := ["test", "secure", "d", "a"], rtype := 5, target := some ["test", "target", "a"] }
+    [{ owner := ["test", "secure", "d"], rtype := 39, target := some ["test", "target"] }] = true := by decide
+
 /-! ## `ValidateSigner` -/
 
 /-- **The signer is the query name or a proper ancestor of it, label by label.** -/
@@ -425,6 +479,30 @@ theorem delegation_insecure_only_on_proof {verify : VRes} {ds : List DS} {h3 o3 
       right
       refine ⟨hde, ?_⟩
       cases h3 <;> cases o3 <;> cases h1 <;> cases o1 <;> simp_all
+
+/-- **The NSEC proof of an insecure delegation**: `VerifyDelegationNSEC` succeeds only on an NSEC
+owned by the delegation point with the NS bit set and BOTH the DS and the SOA bit clear (an NSEC
+that lists DS says the opposite; one that lists SOA is the child's apex, not the parent's cut). -/
+theorem delegation_nsec_proof {delegation : Name} {nsecs : List DelegNSEC}
+    (h : verifyDelegationNSEC delegation nsecs = .ok) :
+    ∃ n ∈ nsecs, n.owner = delegation ∧ n.ns = true ∧ n.ds = false ∧ n.soa = false := by
+  induction nsecs with
+  | nil => simp [verifyDelegationNSEC] at h
+  | cons n t ih =>
+    unfold verifyDelegationNSEC at h
+    split at h
+    · obtain ⟨x, hx, hp⟩ := ih h; exact ⟨x, by simp [hx], hp⟩
+    · rename_i ho
+      split at h; · cases h
+      rename_i hns
+      split at h; · cases h
+      rename_i hds
+      refine ⟨n, by simp, by simpa using ho, by simpa using hns, ?_, ?_⟩ <;>
+        (cases hd : n.ds <;> cases hs : n.soa <;> simp_all)
+
+-- all eight subsets of {NS, DS, SOA} at the delegation point: exactly {NS} proves it
+example : ∀ ns ds soa : Bool, (verifyDelegationNSEC ["test", "victim"] [⟨["test", "victim"], ns, ds, soa⟩] = .ok) =
+    (ns = true ∧ ds = false ∧ soa = false) := by decide
 
 /-- **`insecure_only_on_proof` (answer / authority).**  With CD=0, unsigned data is accepted only
 when (a) the response carries no usable signature and `isZoneSecure` said the zone has no DS
